@@ -13,7 +13,7 @@ from typing import Any, Dict, List
 from .. import gen, hta, tlc
 from ..core import Prop
 from .common import write_and_load
-from .cp import TYPES, gen_cp_case, project_graph, project_path, run_analysis
+from .cp import TYPES, _tk, gen_cp_case, project_graph, project_path, run_analysis
 
 
 def _h(x: Any) -> str:
@@ -29,11 +29,11 @@ def projection(cp) -> Dict[str, Any]:
     rows = []
     if bd is not None:
         for t in bd[["event_idx", "duration", "type", "bound_by", "stream", "pid", "tid", "cat", "s_name"]].itertuples(index=False):
-            rows.append([None if t[0] != t[0] else int(t[0]), int(t[1]), str(t[2]), str(t[3])] + [None if x != x else int(x) for x in t[4:8]] +
+            rows.append([None if t[0] != t[0] else int(t[0]), _tk(t[1]), str(t[2]), str(t[3])] + [None if x != x else int(x) for x in t[4:8]] +
                         [None if (t[8] is None or t[8] != t[8]) else str(t[8])])
     pw = 0
     for a, b in zip(cp.critical_path_nodes, cp.critical_path_nodes[1:]):
-        pw += int(cp.edges[a, b]["weight"])
+        pw += _tk(cp.edges[a, b]["weight"])
     g["edges"] = sorted(g["edges"], key=lambda e: (e["u"], e["v"]))
     return {"g": _h(g), "p": _h(p), "b": _h(sorted(rows, key=lambda r: json.dumps(r))), "pw": int(pw), "n_nodes": len(g["nodes"]), "n_edges": len(g["edges"])}
 
@@ -88,6 +88,9 @@ class C19(Prop):
                 hosts = [e for e in rk["events"] if e.get("cat") == "cpu_op" and e.get("ph") == "X"]
                 for e in rng.sample(hosts, min(len(hosts), rng.randint(1, 3))):
                     e["name"] = rng.choice(odd)
+        if k % 5 == 4 and not case.get("tie") and all(r["ticks"] == 1 for r in case["ranks"]):
+            from .cp import fractional_durations
+            fractional_durations(rng, case)          # whole-microsecond starts, quarter-microsecond durations: fractional node times and weights
         path = os.path.join(os.environ.get("VF_SCRATCH", ""), "c19_hists.json")
         hists = json.load(open(path)) if os.path.exists(path) else [[{"op": "save", "s": 1, "t": 0}, {"op": "restore", "s": 1, "t": 0},
                                                                        {"op": "recompute", "s": 1, "t": 0}]]
@@ -98,6 +101,8 @@ class C19(Prop):
         from hta.analyzers.critical_path_analysis import restore_cpgraph
         obs: Dict[str, Any] = {"prop": "C19", "err": "", "steps": [], "live0": {"g": "", "p": "", "b": "", "pw": 0}}
         os.environ["CRITICAL_PATH_ADD_ZERO_WEIGHT_LAUNCH_EDGE"] = "1" if case["zero"] else "0"
+        from . import cp as _cp
+        _cp.U = int(case.get("u", 1))
         with hta.CaseDir("c19") as d:
             ta = write_and_load(case, d, include_last=case["incl"])
             r, ann, inst = run_analysis(ta, case)
